@@ -138,6 +138,25 @@ Check (C07.C07_file_zoom_query_complete : forall fp s e (R : list zrec),
   /\ (forall z', In z' ans -> exists z, In z R /\ z' = zrec_read fp z /\ s <= z_end z /\ z_start z <= e)
   /\ map (fun z => (z_chrom z, z_start z, z_end z, cov z)) ans
      = map (fun z => (z_chrom z, z_start z, z_end z, cov z)) (filter (ztouch s e) R)).
+Check (C07.C07_f32_store_load : forall b, b < 4294967296 ->
+  f32_of_bits (bits_of_f32 (f32_of_bits b)) = f32_of_bits b
+  /\ to_f32 ieee (f32_of_bits b) = f32_of_bits b /\ to_f32 exact (f32_of_bits b) = f32_of_bits b).
+Check (C07.C07_minmax_read_exact : forall fp ips size chrom len vals st, fp = ieee \/ fp = exact ->
+  1 <= size -> wf_vals len vals -> Forall (fun v => v_bits v < U32) vals ->
+  zoom_chrom fp ips size chrom vals zstate0 = Ok st ->
+  Forall (fun r => su_min (z_sum (zrec_read fp r)) = su_min (z_sum r)
+                   /\ su_max (z_sum (zrec_read fp r)) = su_max (z_sum r)
+                   /\ exists v w, In v vals /\ In w vals /\ su_min (z_sum r) = v_val v /\ su_max (z_sum r) = v_val w)
+         (concat (zs_out st))).
+Check (C07.C07_stat_read_value_ieee : forall M E,
+  match to_f32 ieee (FFin M E) with
+  | FFin m e =>
+      exists m' e', f32_of_bits (bits_of_f32 (to_f32 ieee (FFin M E))) = FFin m' e'
+        /\ (m = 0 -> m' = 0)%Z
+        /\ (m <> 0 -> -149 <= e /\ -149 <= e' /\ m' * 2 ^ (e' + 149) = m * 2 ^ (e + 149))%Z
+  | FInf s => f32_of_bits (bits_of_f32 (to_f32 ieee (FFin M E))) = FInf s
+  | FNaN => False
+  end).
 (* the definitions the file theorem is stated with, pinned by unfolding *)
 Check (eq_refl : ztouch = fun s e z => (s <=? z_end z) && (z_start z <=? e)).
 Check (eq_refl : zrec_read = fun fp z =>
